@@ -5,7 +5,7 @@ from obligations.C08 import LFHT_TRUSTED
 
 SEL = ('C08.O7.small.add_helps', 'C07.O2.gc_bucket_retry_small', 'C08.O7.small.is_empty', 'C08.O7.small.delete_bucket', 'C06.O3.cds_lfht_add_replace', 'C06.O3.cds_lfht_del', 'C07.O1.del', 'C07.O1.del_twice', 'C07.O2.gc_bucket', 'C07.O2.gc_bucket_small', 'C07.O3.delete_bucket', 'C07.O3.delete_bucket_nonempty', 'C07.O3.is_empty', 'C07.O3.is_empty_nonempty',
        'C06.O2.replace', 'C06.O2.replace_removed')
-OBLIGATIONS = [o for o in _c08.OBLIGATIONS if o.name in SEL] + [o for o in _c09.OBLIGATIONS if o.name in ('C09.O3.fini_table', 'C09.O3.shrink', 'C09.O5.remove_table_partition', 'C09.O6.destroy', 'C09.O6.resize_cb', 'C09.O4.partition_helper')]
+OBLIGATIONS = [o for o in _c08.OBLIGATIONS if o.name in SEL] + [o for o in _c09.OBLIGATIONS if o.name in ('C09.O3.fini_table', 'C09.O3.shrink', 'C09.O5.remove_table_partition', 'C09.O6.destroy', 'C09.O6.destroy_cb', 'C09.O6.resize_cb', 'C09.O4.partition_helper')]
 META = {
     'level': 'proof', 'bounded_apart': True,
     'trusted_base': LFHT_TRUSTED,
